@@ -189,10 +189,12 @@ abbrev optOscore : Nat := 9
 /-- class U only: Uri-Host, Uri-Port, OSCORE, Hop-Limit (RFC 8768 §5), Proxy-Uri, Proxy-Scheme -/
 def classUOnly (n : Nat) : Bool := n = 3 || n = 7 || n = 9 || n = 16 || n = 35 || n = 39
 
-/-- the options with an `x` in column E of Figure 5, plus Echo / Request-Tag (RFC 9175) — D14.9 -/
+/-- the options with an `x` in column E of Figure 5, plus Echo / Request-Tag (RFC 9175) and Q-Block1 (19) / Q-Block2 (31)
+(RFC 9177 §4.1: "class E and U", exactly as Block1 / Block2: the sender protects them, an outer one belongs to the outer
+block-wise transfer and is gone when §8.2 / §8.4 step 1 runs) — D14.9 -/
 def classE (n : Nat) : Bool :=
   n = 1 || n = 4 || n = 5 || n = 6 || n = 8 || n = 11 || n = 12 || n = 14 || n = 15 || n = 17 || n = 20 ||
-  n = 23 || n = 27 || n = 28 || n = 60 || n = 258 || n = 252 || n = 292
+  n = 23 || n = 27 || n = 28 || n = 60 || n = 258 || n = 252 || n = 292 || n = 19 || n = 31
 
 def isRequest (code : Nat) : Bool := 0 < code && code < 32
 
